@@ -1180,6 +1180,10 @@ class Process(StateMachine, persistence.Savable, metaclass=ProcessStateMachineMe
 
             def do_kill(_next_state: process_states.State) -> Any:
                 try:
+                    if _next_state is not None and _next_state.LABEL == process_states.ProcessState.EXCEPTED:
+                        # The step that was in flight failed: its exception is not swallowed by the kill
+                        self.transition_to(_next_state)
+                        return False
                     new_state = self._create_state_instance(process_states.ProcessState.KILLED, msg=exception.msg)
                     self.transition_to(new_state)
                     return True
